@@ -24,7 +24,7 @@ void __sanitizer_set_death_callback(void (*cb)(void));
 static int    o_cfg = 0, o_depth = -1, o_tier = 0;
 static long   o_max_states = 4000000;
 static double o_deadline = 1e9;
-static const char *o_replay = 0, *o_outdir = "replays";
+static const char *o_replay = 0, *o_outdir = "replays", *o_tag = "";
 static struct { char name[32]; int val; } o_opts[16];
 static int    n_opts;
 int  mc_verbose;
@@ -47,6 +47,7 @@ static void parse_args(int argc, char **argv)
         else if (!strcmp(argv[i], "--deadline") && i + 1 < argc) o_deadline = atof(argv[++i]);
         else if (!strcmp(argv[i], "--replay") && i + 1 < argc) o_replay = argv[++i];
         else if (!strcmp(argv[i], "--out") && i + 1 < argc) o_outdir = argv[++i];
+        else if (!strcmp(argv[i], "--tag") && i + 1 < argc) o_tag = argv[++i];
         else if (!strcmp(argv[i], "--tier") && i + 1 < argc) o_tier = !strcmp(argv[++i], "thorough");
         else if (!strcmp(argv[i], "--opt") && i + 1 < argc && n_opts < 16) {
             char *eq = strchr(argv[++i], '=');
@@ -108,12 +109,22 @@ static void json_str(FILE *f, const char *s)
     fputc('"', f);
 }
 
+static unsigned tag_hash(void)
+{
+    unsigned h = 2166136261u;
+    for (const char *p = o_tag; *p; p++) h = (h ^ (unsigned char)*p) * 16777619u;
+    for (int i = 0; i < n_opts; i++) { for (const char *p = o_opts[i].name; *p; p++) h = (h ^ (unsigned char)*p) * 16777619u; h = (h ^ (unsigned)o_opts[i].val) * 16777619u; }
+    h = (h ^ (unsigned)o_depth) * 16777619u;
+    return h;
+}
+
 static void write_replay(const char *path, const char *sig, const char *diag)
 {
     FILE *f = fopen(path, "w");
     if (!f) return;
     fprintf(f, "{\n \"property\": \"%s\",\n \"harness\": \"%s\",\n \"cfg\": %d,\n \"tier\": %d,\n \"sig\": ", g_prop, g_name, ctx_n ? ctx[0] : o_cfg, o_tier);
     json_str(f, sig);
+    fprintf(f, ",\n \"build\": "); json_str(f, o_tag);
     fprintf(f, ",\n \"ctx\": [");
     for (int i = 0; i < ctx_n; i++) fprintf(f, "%s%d", i ? "," : "", ctx[i]);
     fprintf(f, "],\n \"opts\": {");
@@ -142,7 +153,7 @@ static void record_violation(const char *sig, const char *diag)
         char clean[128]; int j = 0;
         for (const char *p = sig; *p && j < 100; p++) clean[j++] = ((*p >= 'a' && *p <= 'z') || (*p >= 'A' && *p <= 'Z') || (*p >= '0' && *p <= '9')) ? *p : '_';
         clean[j] = 0;
-        snprintf(sigs[k].file, sizeof sigs[k].file, "%s/%s-%s-cfg%d-%s.json", o_outdir, g_prop, g_name, o_cfg, clean);
+        snprintf(sigs[k].file, sizeof sigs[k].file, "%s/%s-%s-%08x-cfg%d-%s.json", o_outdir, g_prop, g_name, tag_hash(), o_cfg, clean);
         write_replay(sigs[k].file, sig, diag);
     }
     sigs[k].count++;
@@ -152,7 +163,7 @@ static void record_violation(const char *sig, const char *diag)
 static void dump_in_progress(const char *sig)
 {
     char path[300];
-    snprintf(path, sizeof path, "%s/%s-%s-cfg%d-%s.json", o_outdir, g_prop, g_name, o_cfg, sig);
+    snprintf(path, sizeof path, "%s/%s-%s-%08x-cfg%d-%s.json", o_outdir, g_prop, g_name, tag_hash(), o_cfg, sig);
     write_replay(path, sig, "process died while executing this case; see the captured stderr for the sanitizer report");
     printf("\nMCCRASH sig=%s file=%s\n", sig, path);
     fflush(stdout);
